@@ -90,7 +90,7 @@ Qed.
 (** ** get_multiplicity as a pure function of what it reads *)
 
 Definition mult_pure (vc : list cname) (sh : list jv) (ns : res (option Z)) (cl : cname) : res Z :=
-  if negb (existsb (cname_eqb cl) vc) then Err EType else
+  if negb (existsb (cname_eqb cl) vc) then Err EValue else
   let base := fst cl in
   let sub := snd cl in
   if str_eqb sub N_slices then
